@@ -7,7 +7,8 @@ an empty / differently-cased principal), the body (grammar: valid, oversized, no
 types, empty / over-long token, JWS-shaped token) and the behaviour of the resolver — the simulated remote
 authority: identity with a ttl out of {300, 1, 2.5, 10**30, 0, -1, NaN, +-inf, 1e400, "300", None, True}, ``None``
 (unknown), ``AuthUnavailableError`` (outage), ``KeyError(token)`` / ``RuntimeError`` (crash).  The virtual clock is
-advanced between requests so the per-caller rate limiter never triggers (it is not part of the property).
+advanced between requests so the per-caller rate limiter does not trigger - except in 'burst' runs (clock frozen, limit 1-3),
+where an allow-listed caller may get 429 but a caller outside the allowlist must still get 403 every time.
 
 Oracles (property statement; docs/WIRE_PROTOCOL.md section 16 is normative):
   forbidden     403 for every caller outside the allowlist, whatever the body
@@ -187,6 +188,11 @@ def run(ctx: RunCtx) -> None:
     two = ch.choose(2, "cfg.allowlist") == 1
     allow = ["proxy", "proxy2"] if two else ["proxy"]
     rate = [20, 1, 1000][ch.choose(3, "cfg.rate")]
+    # burst runs: the clock stands still and the limit is tiny, so the per-caller limiter does trigger.  An allow-listed
+    # caller may then be told 429; a caller outside the allowlist must still get its 403, request after request
+    burst = ch.choose(4, "cfg.burst") == 1
+    if burst:
+        rate = [1, 2, 3][ch.choose(3, "cfg.burst.rate")]
     prefix = ["", "/vgi"][ch.choose(2, "cfg.prefix")]
     authority = Authority()
     kw: dict[str, Any] = dict(token_key=b"k" * 32, prefix=prefix)
@@ -205,7 +211,10 @@ def run(ctx: RunCtx) -> None:
         with s2.http_seams(sched, det):
             cluster = s2.Cluster(ctx, sched, sn.RecService, sn.RecImpl, app_kwargs=kw)
             for i in range(n_req):
-                sched.advance(1.5 + ch.choose(3, f"r{i}.gap"))
+                if not burst:
+                    sched.advance(1.5 + ch.choose(3, f"r{i}.gap"))
+                else:
+                    ch.fault("burst-request")
                 cname, ident = CALLERS[ch.weighted([8, 2, 2, 2 if two else 1, 1, 1], f"r{i}.caller")]
                 allowed = enabled and with_auth and ident is not None and ident.partition("|")[2] in allow
                 bclass, raw, token, expect = make_body(ch, i)
@@ -262,7 +271,7 @@ def run(ctx: RunCtx) -> None:
                         ctx.violation(PROPERTY, "forbidden", cname, f"caller outside the allowlist got {status}, not 403 ({site_ctx}): {body[:200]!r}")
                     continue
                 if status == 429:
-                    ch.probe("unexpected-429")
+                    ch.probe("rate-limited-allow-listed-caller" if burst else "unexpected-429")
                     continue
                 if expect in ("malformed", "jws") or (expect == "resolve" and authority.mode[0] == "unknown"):
                     kind = expect if expect != "resolve" else "unknown"
